@@ -25,7 +25,11 @@ WRAPS = ['%s', 'Struct("pre"/Bytes(2), "r"/%s, "post"/Byte)', 'Prefixed(Byte, St
          'Struct("h"/Bytes(5), "o"/Prefixed(Byte, Struct("i"/FixedSized(14, Struct("j"/Int16ub, "r"/%s)), "z"/GreedyBytes)))',
          'Struct("h"/Byte, "o"/FixedSized(20, Struct("k"/Bytes(2), "i"/Prefixed(VarInt, Struct("r"/%s)))), "t"/Byte)',
          'Sequence(Bytes(2), Prefixed(Byte, Sequence(Byte, OffsettedEnd(-1, Prefixed(Byte, Struct("r"/%s))), Byte)))',
-         'Struct("h"/Bytes(2), "o"/NullTerminated(Struct("i"/Prefixed(Byte, Struct("r"/%s))), term=b"\\xfe\\xfe"))']
+         'Struct("h"/Bytes(2), "o"/NullTerminated(Struct("i"/Prefixed(Byte, Struct("r"/%s))), term=b"\\xfe\\xfe"))',
+         # the terminator options: the region keeps the terminator / there is no terminator at all
+         'Struct("g"/Bytes(2), "o"/NullTerminated(Struct("r"/%s, "z"/GreedyBytes), include=True), "t"/Byte)',
+         'Struct("g"/Bytes(3), "o"/NullTerminated(Struct("r"/%s), require=False))',
+         'Struct("g"/Byte, "o"/NullTerminated(Struct("r"/%s), consume=False), "t"/Bytes(2))']
 
 
 def find_raw(v):
@@ -87,6 +91,27 @@ def o_rawcopy(src, inner, data, start):
     if cr is None or bytes(cr['data']) != bytes(r['data']) or (cr['offset1'], cr['offset2'], cr['length']) != (r['offset1'], r['offset2'], r['length']):
         return 'the compiled parser reports data %r at [%r:%r], the stream slice is %r at [%d:%d]' % (cr and cr['data'], cr and cr['offset1'], cr and cr['offset2'], r['data'], r['offset1'], r['offset2'])
     return None
+
+
+@C.oracle('focused_checksum')
+def o_focused_checksum(src, value):
+    """the checksum idiom inside a FocusedSeq: built from the value alone, the digest covers the bytes that were written and verifies when parsed"""
+    c = C.get(src)
+    try:
+        data = c.build(dict(value=value))
+    except Exception as e:
+        return 'build from the value raised %s' % type(e).__name__
+    try:
+        back = c.parse(data)
+    except Exception as e:
+        return 'what was built (%r) does not verify when parsed: %s' % (data, type(e).__name__)
+    if back.value != value:
+        return 'parsed back %r, built %r' % (back.value, value)
+    try:
+        again = c.build(dict(back))
+    except Exception as e:
+        return 'building the parsed result again raised %s' % type(e).__name__
+    return None if again == data else 'building the parsed result again gives %r, first %r' % (again, data)
 
 
 @C.oracle('rawcopy_build')
@@ -276,6 +301,12 @@ def run(tier, seed):
                 # craft an input for the wrapper around the canonical encoding
                 if w == '%s':
                     datas = [enc, enc + b'\x01\x02']
+                elif 'include=True' in w:
+                    datas = [b'GG' + enc + b'\x00\x07'] if b'\x00' not in enc else []
+                elif 'require=False' in w:
+                    datas = [b'GGG' + enc, b'GGG' + enc + b'\x00\x05'] if b'\x00' not in enc else []
+                elif 'consume=False' in w:
+                    datas = [b'G' + enc + b'\x00\x05'] if b'\x00' not in enc else []
                 elif w.startswith('Struct("pre"'):
                     datas = [b'\xaa\xbb' + enc + b'\x05']
                 elif w.startswith('Prefixed(Byte, Struct("k"'):
@@ -334,6 +365,13 @@ def run(tier, seed):
                             cases.append(dict(src=src, op='parse', data=bytes(bad)))
                     except Exception:
                         pass
+    for fsrc, fvals in [('FocusedSeq("payload", "payload"/RawCopy(Bytes(2)), "crc"/Checksum(Byte, sum8, this.payload.data))', [b'ab', b'\x00\xff']),
+                        ('FocusedSeq("payload", "hdr"/Const(b"H"), "payload"/RawCopy(Int16ub), "crc"/Checksum(Int32ub, crc32, this.payload.data))', [513, 0]),
+                        ('Struct("k"/Byte, "f"/FocusedSeq("payload", "payload"/RawCopy(PascalString(Byte, "ascii")), "crc"/Checksum(Byte, xor8, this.payload.data)))', None)]:
+        if fvals is None:
+            continue
+        for fv in fvals:
+            checks.append(('focused_checksum', fsrc, dict(value=fv)))
     acc.corr(cases, 'rawcopy')
     for kind, src, args in checks:
         acc.check(kind, src, **args)
